@@ -205,6 +205,37 @@ def lru_pin(r, F):
     r.require("pin_list" in lfc, clr, "clear-drains-pin_list", "clear empties the pin list as well", "Lru::clear leaves pinned records in the pin list", ln=clr.lo)
 
 
+def acquire_on_lookup(r, F):
+    """every successful lookup runs the algorithm's acquire operator, unconditionally (the pin / recency update of a looked-up entry)"""
+    for name, acq in (("get_immutable", "acquire_immutable"), ("get_mutable", "acquire_mutable")):
+        fn = F.method(SHARD, name)
+        gi = fn.calls_to(r"RawCacheShard::<E, S, I>::get_inner$")
+        if len(gi) != 1:
+            raise AnchorMissing("%s: get_inner not found" % name)
+        bodies = [fn] + F.descendants(fn)
+        sites = [(g, b) for g in bodies for b in g.calls_to(r"RawCacheShard::<E, S, I>::%s$" % acq)]
+        ok = False
+        for g, b in sites:
+            if g is fn:
+                # direct: every path from the Some edge of the lookup passes the acquire
+                for (sb, pl, tm, other) in tables.variant_switch_on(fn, gi[0].idx):
+                    if "Some" in tm and fn.must_pass(tm["Some"], [b.idx]):
+                        ok = True
+            else:
+                # in the closure handed to Option::inspect/map on the lookup result: unconditional inside the closure, and the closure is applied to the lookup's result
+                applied = any(t.term.callee and re.search(r"Option::<T>::(inspect|map|and_then)$", t.term.callee) and any(bb == gi[0].idx for bb, _ in backslice(fn, t.term.args[0], "prov").calls)
+                              for t in fn.calls())
+                ok = applied and g.must_pass(0, [b.idx])
+        r.require(ok, fn, "%s: hit -> %s on every path" % (name, acq), "a looked-up record is always acquired (pinned / marked) before its handle is returned",
+                  "RawCacheShard::%s does not run the acquire operator for every hit: under LRU a looked-up entry whose handle is held is not moved to the pin list and can "
+                  "be chosen as an eviction victim" % name, ln=gi[0].term.ln)
+    # and release on last drop: both release arms call the matching release op under the lock
+    dr = F.method(ENTRY, "drop", "Drop")
+    rels = {g.calls_to(r"RawCacheShard::<E, S, I>::release_(im)?mutable$")[0].term.callee.rsplit("::", 1)[-1] for g in F.descendants(dr) if g.calls_to(r"RawCacheShard::<E, S, I>::release_(im)?mutable$")}
+    r.require(rels == {"release_immutable", "release_mutable"}, dr, "last drop releases through the matching operator", "Immutable -> release_immutable (read lock), Mutable -> release_mutable (write lock)",
+              "RawCacheEntry::drop does not dispatch to both release operators: %s" % sorted(rels), ln=dr.lo)
+
+
 def outdated(r, F):
     fn = F.method(ENTRY, "is_outdated")
     calls = [b for b in fn.calls() if b.term.callee and b.term.callee.endswith("Record::<E>::is_in_indexer")]
@@ -275,6 +306,7 @@ def immutable(r, F):
 
 def run(chk, F):
     chk.run_rule("C18.refs-paired", "every reference-count increment ends in a handle whose drop decrements it; release only at zero", 14, refs_paired, F)
+    chk.run_rule("C18.acquire-on-lookup", "every lookup hit runs the acquire operator unconditionally; the last drop runs the matching release operator", 3, acquire_on_lookup, F)
     chk.run_rule("C18.lru-pin", "LRU: pop never reads the pin list; acquire pins, release unpins to the tail, clear drains it", 5, lru_pin, F)
     chk.run_rule("C18.outdated", "is_outdated == !in-indexer flag, and only the Sentry index wrapper writes the flag (true on insert, false on leave)", 6, outdated, F)
     chk.run_rule("C18.immutable", "no code path assigns to or mutably borrows Record.data; accessors return shared borrows", 4, immutable, F)
